@@ -2,3 +2,4 @@ import Proofs.SegFactory
 import Proofs.Chain
 import Proofs.Pairing
 import Proofs.PairingOrder
+import Proofs.Cigar
